@@ -811,9 +811,9 @@ class PreferredUnits(metaclass=PreferredUnitsMeta):  # pylint: disable=too-many-
                         setattr(PreferredUnits, attribute, _unit)
                     else:
                         logger.warning(f"{value=} not a member of Unit")
-                elif isinstance(value, bool):
-                    setattr(PreferredUnits, attribute, value)
                 else:
+                    # (a bool used to be stored as it was: `distance = true` in a config file put True into the slot
+                    # and every later computation failed; it is no unit and is reported like any other such value)
                     logger.warning(f"type of {value=} have not been converted to a member of Unit")
             else:
                 logger.warning(f"{attribute=} not found in preferred_units")
